@@ -292,7 +292,13 @@ func Run(plan Plan, dir string, rng *rand.Rand, caughtUpWatchdog time.Duration) 
 	tr := &Trace{Plan: plan, Leaders: map[uint64][]int{}}
 	netRng := rand.New(rand.NewSource(rng.Int63()))
 	cfg := dbx.Config{Engine: plan.Engine, ValueThreshold: 1024, Buckets: 1, VlogFileSize: 1 << 20, ManifestRewrite: 64 << 20, Controlled: true, MemTableSize: 4 << 20, L0Tables: 1000}
-	cl, err := New(Options{Dir: dir, Stores: 3, Regions: plan.RegionSpecs(), Rng: netRng, CommandTimeout: 2 * time.Second, DB: cfg})
+	opts := Options{Dir: dir, Stores: 3, Regions: plan.RegionSpecs(), Rng: netRng, CommandTimeout: 2 * time.Second, DB: cfg}
+	if plan.Flavor == "stale-leader-read" {
+		// committed entries are handed to the apply loop one per Ready, so a fresh leader drains
+		// its backlog over several Readys
+		opts.MaxSizePerMsg = 64
+	}
+	cl, err := New(opts)
 	if err != nil {
 		tr.StartErr = err.Error()
 		return tr
@@ -503,6 +509,16 @@ func Run(plan Plan, dir string, rng *rand.Rand, caughtUpWatchdog time.Duration) 
 					return op
 				}
 				var probeOps []Op
+				// the other stores apply slowly while the leader acknowledges a burst of
+				// writes: whoever is elected next starts with committed, unapplied entries
+				for i := range cl.Nodes {
+					if i != l {
+						cl.SetApplyDelay(i, 15*time.Millisecond)
+					}
+				}
+				for _, tag := range []string{"old-a", "old-b", "old-c"} {
+					probeOps = append(probeOps, write(l, tag))
+				}
 				w0 := write(l, "old")
 				cl.Isolate(l)
 				probeOps = append(probeOps, w0)
@@ -522,6 +538,9 @@ func Run(plan Plan, dir string, rng *rand.Rand, caughtUpWatchdog time.Duration) 
 				}
 				if nl >= 0 {
 					r1 := read(nl)
+					for i := range cl.Nodes {
+						cl.SetApplyDelay(i, 0)
+					}
 					w1 := write(nl, "new")
 					r2 := read(l)
 					probeOps = append(probeOps, r1, w1, r2)
@@ -529,6 +548,9 @@ func Run(plan Plan, dir string, rng *rand.Rand, caughtUpWatchdog time.Duration) 
 					tr.Probes = append(tr.Probes, fmt.Sprintf("%s/%s/%s/%s", w0.Outcome, r1.Outcome, w1.Outcome, r2.Outcome))
 				} else {
 					ev.Note = fmt.Sprintf("region %d: store %d isolated, no new leader within the watchdog", reg, l)
+				}
+				for i := range cl.Nodes {
+					cl.SetApplyDelay(i, 0)
 				}
 				opsMu.Lock()
 				for _, op := range probeOps {
